@@ -17,6 +17,7 @@ import io
 import math
 import os
 import shutil
+import pickle
 import tempfile
 
 import numpy as np
@@ -166,6 +167,21 @@ def run(ch, idx, tier):
     use_progs = entry.meta["has_progset"] and ch.flip("with_programs", 0.65)
     progset = P.progsets[0] if use_progs else None
     history = []
+    def _through_the_book(pg, label):
+        # the object the loader makes of a book must have the content of the object the book was written from
+        new_ = at.ProgramSet.from_spreadsheet(pg.to_spreadsheet(), framework=fw, data=data, name=pg.name)
+        d_ = _content_eq(progset_content(pg), progset_content(new_), 1e-15)
+        if d_:
+            violate("content_changed_by_round_trip", f"progbook[{label}]", {"diff": d_})
+        return new_
+
+    if progset is not None and getattr(P, "_handbuilt_progset_blob", None) is not None:
+        # generated models: the program set as it was built through the API, before any loader touched it
+        try:
+            _through_the_book(pickle.loads(P._handbuilt_progset_blob), "built through the API")
+            bump("probe:handbuilt_program_set_through_the_book")
+        except Exception as e:
+            violate("own_output_does_not_load", f"progbook[built through the API]:{_where(e)}", {"exception": f"{type(e).__name__}: {str(e)[:300]}"})
     if progset is not None and ch.flip("outcomes_in_untargeted_pops", 0.3):
         # a valid program book may hold an outcome for a population the program does not target (the cell is only
         # highlighted): every program gets one where the book's structure allows it
@@ -178,7 +194,7 @@ def run(ch, idx, tier):
                     n_added += 1
                     break
         if n_added:
-            progset = at.ProgramSet.from_spreadsheet(progset.to_spreadsheet(), framework=fw, data=data)
+            progset = _through_the_book(progset, "outcomes in untargeted populations")
             history.append(f"program book with {n_added} outcomes in untargeted populations")
     if progset is not None and ch.flip("other_currency", 0.4):
         # a program book kept in another currency (the currency is whatever the spending units say)
@@ -188,7 +204,7 @@ def run(ch, idx, tier):
                 if ts.units:
                     ts.units = ts.units.replace(progset.currency, cur, 1)
         progset.currency = cur
-        progset = at.ProgramSet.from_spreadsheet(progset.to_spreadsheet(), framework=fw, data=data)
+        progset = _through_the_book(progset, "other currency")
         history.append(f"program book in {cur}")
     trace = []
     compared = 0
